@@ -17,6 +17,7 @@ import (
 	"time"
 
 	"verif/internal/model/cli"
+	_ "verif/internal/model/linux"
 	"verif/internal/sim"
 )
 
